@@ -158,13 +158,31 @@ func watch(o *Outcome, deadline time.Duration, fn func(o *Outcome, pg *progress)
 		case <-tk.C:
 			if time.Since(time.Unix(0, pg.tick.Load())) > deadline {
 				st := pg.stage.Load().(string)
+				// a loaded machine can make a merely slow call look hung: before reporting, give
+				// the call a grace period; if it returns within it, it was slow, not hung
+				if grace > 0 {
+					select {
+					case r := <-done:
+						slowCalls++
+						return r
+					case <-time.After(grace):
+					}
+					if time.Since(time.Unix(0, pg.tick.Load())) <= deadline {
+						continue // progress was made during the grace period: keep watching
+					}
+				}
 				hangs++
 				return &Outcome{Stage: st, Fail: "hang", SchemaAccepted: st != "NewSchema", Reads: int(pg.reads.Load()),
-					Panic: fmt.Sprintf("call to %s did not return within %v (after %d completed Reads)", st, deadline, pg.reads.Load())}
+					Panic: fmt.Sprintf("call to %s did not return within %v (after %d completed Reads)", st, deadline+grace, pg.reads.Load())}
 			}
 		}
 	}
 }
+
+// grace is the extra time a call gets after the watchdog deadline before it is reported as hung
+// (0 while minimising and for known-hang corpus cases).
+var grace = 20 * time.Second
+var slowCalls int
 
 // guarded runs a small observation under recover() and a watchdog; "" = returned normally.
 func guarded(deadline time.Duration, fn func()) string {
